@@ -149,6 +149,8 @@ def run(ctx):
 FI = 'sedfitter/fit_info.py'
 MO = 'sedfitter/models.py'
 MUST_FIRE = [
+    ('round 12 twin: the loop over the names of the per-fit arrays leaves sc out', [(FI, "        self.av = self.av[order]\n        self.sc = self.sc[order]\n        self.chi2 = self.chi2[order]\n        self.model_name = self.model_name[order]\n",
+      "        names = ('av', 'chi2', 'model_name')\n        for name, values in zip(names, [getattr(self, n) for n in names], strict=True):\n            setattr(self, name, np.take(values, order, axis=0))\n")]),
     ('ranked by chi^2 rounded to three decimals, ties by name: fits that differ in the fourth decimal can be listed in decreasing order', [('sedfitter/fit_info.py', 'order = np.argsort(self.chi2)', 'order = np.lexsort((self.model_name, np.round(self.chi2, 3)))')]),
     ('only finite chi2 ranked: argsort of the compressed array concatenated with full-axis positions', [(FI, 'order = np.argsort(self.chi2)', 'ranked = np.isfinite(self.chi2)\n        order = np.hstack([np.argsort(self.chi2[ranked]), np.flatnonzero(~ranked)])')]),
     ('sort omits sc', [(FI, "        self.sc = self.sc[order]\n        self.chi2 = self.chi2[order]", "        self.chi2 = self.chi2[order]")]),
@@ -169,6 +171,8 @@ MUST_FIRE = [
     ('chi2 permuted twice', [(FI, "        self.chi2 = self.chi2[order]\n", "        self.chi2 = np.sort(self.chi2[order])\n")]),
 ]
 MUST_SILENT = [
+    ('round 12: the per-fit arrays gathered in a loop over their names (zip(strict=True), setattr, np.take)', [(FI, "        self.av = self.av[order]\n        self.sc = self.sc[order]\n        self.chi2 = self.chi2[order]\n        self.model_name = self.model_name[order]\n",
+      "        names = ('av', 'sc', 'chi2', 'model_name')\n        for name, values in zip(names, [getattr(self, n) for n in names], strict=True):\n            setattr(self, name, np.take(values, order, axis=0))\n")]),
     ('ranked by chi^2, exact ties in order of model name', [('sedfitter/fit_info.py', 'order = np.argsort(self.chi2)', 'order = np.lexsort((self.model_name, self.chi2))')]),
     ('order renamed and reused', [(FI, "order = np.argsort(self.chi2)", "idx = np.argsort(self.chi2)\n        order = idx")]),
     ('explicit slice on names', [(FI, "self.model_name = self.model_name[order]", "self.model_name = self.model_name[order,]")]) if False else
